@@ -22,11 +22,30 @@ package fiatshamir
 //@ assumed interface hash.Hash: Sum(nil) returns a newly allocated slice holding the digest
 //@ end
 
+// NewTranscript: every record put into the map of challenges (a map update is an event a cut can anchor on, although
+// the map's contents are not modelled) is stored under the i-th name, has position i, is not computed and has NO
+// bindings and NO value: nil slices, so that the first append of Bind allocates storage owned by that record alone
+// (records carved out of one shared array would let the bindings of one challenge overwrite another's).
+//@ func NewTranscript
+//@ option nomerge
+//@ cut before call mapupdate #*
+//@ + invariant[initial-record] 0 <= i && i < len(challengesID) && callarg2.position == i && isnil(callarg2.bindings) && isnil(callarg2.value) && !callarg2.isComputed
+//@ loop 0
+//@ + invariant[index] -1 <= rangeindex && rangeindex < len(challengesID)
+//@ ensures[start] isnil(result.previous)
+//@ ensures[fresh] fresh(result)
+//@ modifies nothing
+//@ end
+
 //@ func Transcript.Bind
 //@ option nomerge
 //@ cut after def ok #1
 //@ + ghost found = ok
 //@ + ghost computed = currentChallenge.isComputed
+//@ + ghost pos0 = currentChallenge.position
+//@ + ghost nbBound = len(currentChallenge.bindings)
+//@ cut before call mapupdate #1
+//@ + invariant[record-stored] found && !computed && callarg2.position == pos0 && !callarg2.isComputed && len(callarg2.bindings) == nbBound + 1
 //@ ensures[unknown] !found ==> result == errChallengeNotFound
 //@ ensures[computed] found && computed ==> result == errChallengeAlreadyComputed
 //@ ensures[accepted] found && !computed ==> isnil(result)
@@ -63,5 +82,8 @@ package fiatshamir
 //@ ensures[fresh-result] isnil(result1) ==> fresh(result0)
 //@ ensures[order] isnil(result1) && found && !computed && pos > 0 ==> !prevnil && prevpos == pos - 1
 //@ ensures[digest] isnil(result1) && found && !computed ==> summed && same(result0, resultof_Sum)
+//@ ensures[recompute-keeps-order] found && computed ==> t.previous == old(t.previous)
+//@ ensures[refused-keeps-order] !isnil(result1) ==> t.previous == old(t.previous)
+//@ ensures[advance] isnil(result1) && found && !computed ==> !isnil(t.previous) && t.previous.position == pos
 //@ modifies t, t.challenges
 //@ end
